@@ -15,7 +15,10 @@ RULE = ("dyadic trees (1-14 leaves quick, up to 40 thorough; polytomies, unary n
         "N_bar, sackin x 4 normalisations, colless x 4, B1, treeness, gamma). thorough adds every shape <= 6 leaves x every tip perturbed "
         "x both signs x k sweep, and every statistic on every shape <= 7 leaves. Half of the trees live in a taxon namespace that does "
         "not coincide with their tip set (holes in the taxon bits = members on no tip, tips without taxon), and the statistics are also "
-        "taken on trees after the library's prune_taxa (pruned members stay in the namespace); definitions always computed on the tree's own tips. non-trivial = non-ultrametric, or polytomous/unary, "
+        "taken on trees after the library's prune_taxa (pruned members stay in the namespace); definitions always computed on the tree's own tips. "
+        "Ages and statistics are also asked of Tree objects WITH A HISTORY: earlier calc_node_ages/node_ages/gamma/resolve_node_ages calls "
+        "(whatever their outcome), age attributes left by other code, tips dated through set_node_age_fn, then edits that turn internal nodes "
+        "into tips or move the tips (clear_child_nodes, remove_child, truncate_from_root, scale_edges); the call is judged on the tree as it then is. non-trivial = non-ultrametric, or polytomous/unary, "
         "or a perturbation/forcing/normalisation option is in play")
 MODELLED_NOT_VERIFIED = [
     "C17: Model/C17.lean is hand-written from Tree.calc_node_ages / set_edge_lengths_from_node_ages / resolve_node_depths / "
@@ -45,7 +48,9 @@ EXPLANATION = ("Theorems (Props/C17.lean) about the definitions drv_c17 runs, nu
                "lengths_from_ages_roundtrip (within the precision for every accepted tree, exact on ultrametric ones - for non-negative "
                "lengths, minimum None or <= 0, error flag only with minimum 0; lengths_from_ages_within, ..._roundtrip_partial), set_lengths_spec (arbitrary ages, every minimum, error flag). Root "
                "distances: leaf_depths_spec, node_depths_spec (all nodes), minmax_spec, resolve_ages_spec. Lineages: lineages_spec, lineages_spec_all (what is counted on zero/negative lengths), "
-               "lineages_between_speciations (j+2 lineages between the j-th and (j+1)-th speciation). Statistics: length/sackin/nbar/"
+               "lineages_between_speciations_all (boundaries and zero-length edges: j+2 plus the zero-length edges at d), "
+               "lineages_between_speciations (j+2 lineages between the j-th and (j+1)-th speciation). set_lengths_spec applies to every table the driver builds (with_ages_wellformed). Statistics: colless_yule_rational and "
+               "pda_yule_norms_spec (the rational parts of the Yule/PDA normalisations exactly; only log/sqrt evaluation outside), length/sackin/nbar/"
                "harmonic/colless/b1/treeness _eq_def, gamma_loop_eq_sums, gamma_succeeds (a value is returned on every binary exactly "
                "ultrametric positive-length tree with >= 3 leaves, n = number of leaves, T > 0), gamma_eq_def (end to end incl. the lineage "
                "reading of the intervals, conditional on success = gamma_succeeds; gamma_eq_def_partial kept), stats_perm_invariant (child order for every statistic incl. gamma via "
@@ -186,6 +191,56 @@ def mk(dendropy, toks):
     return tree, ids
 
 
+def apply_history(D, tree, ids, steps):
+    """what happened to this Tree object before the call under judgement: earlier age computations (any route, any
+    outcome), age attributes left by other code, tip dating through set_node_age_fn, and edits that turn internal nodes into
+    tips or move the tips.  Nodes are addressed by their ids in the ORIGINAL tokens.  Returns the ids of the final tree."""
+    from dendropy.calculate import treemeasure as tm
+    nodes = [ids.node(i) for i in range(len(ids))]
+    for st in steps or []:
+        kind = st[0]
+        if kind == "stale":
+            for nd, a in zip(nodes, st[1]):
+                nd.age = None if a is None else float(F(a))
+        elif kind == "clear":
+            nodes[st[1]].clear_child_nodes()
+        elif kind == "remove":
+            nd = nodes[st[1]]
+            if nd._parent_node is not None and nd in nd._parent_node._child_nodes:
+                nd._parent_node.remove_child(nd)
+        elif kind == "truncate":
+            tree.truncate_from_root(float(F(st[1])))
+        elif kind == "scale":
+            tree.scale_edges(float(F(st[1])))
+        else:
+            # an earlier computation may legitimately refuse (non-ultrametric, None lengths, non-binary): the history goes on
+            try:
+                if kind == "ages":
+                    kw = prec_value(D, st[1])[0]
+                    if st[2] == "calc":
+                        tree.calc_node_ages(**kw)
+                    else:
+                        getattr(tree, st[2])(**kw)
+                elif kind == "force":
+                    tree.calc_node_ages(is_force_max_age=(st[1] == "max"), is_force_min_age=(st[1] == "min"))
+                elif kind == "gamma":
+                    tm.pybus_harvey_gamma(tree)
+                elif kind == "resolve":
+                    tree.resolve_node_ages()
+                elif kind == "intervals":
+                    tree.coalescence_intervals()
+                elif kind == "datefn":
+                    table = {id(nd): (None if a is None else float(F(a))) for nd, a in zip(nodes, st[1])}
+                    tree.calc_node_ages(ultrametricity_precision=False, set_node_age_fn=lambda nd: table.get(id(nd)))
+                else:
+                    raise KeyError(kind)
+            except KeyError:
+                raise
+            except Exception:   # noqa
+                pass
+    return tu.Ids().assign_preorder(tree)
+
+
 PREC_TOKENS = ["D", "N", "F", "neg"]
 
 
@@ -209,6 +264,15 @@ def prec_value(dendropy, p):
 def op_ages(ctx, D, case):
     toks = case["tree"]
     tree, ids = mk(D, toks)
+    if case.get("history"):
+        # the call is judged on the tree as it is AFTER the history; the model (which has no memory) gets that tree
+        try:
+            ids = apply_history(D, tree, ids, case["history"])
+        except KeyError:
+            raise
+        except Exception:   # noqa   an edit the library refuses on this tree: no case
+            return []
+        toks = tu.encode_tree(tree, ids)[0]
     info = Info(tree, ids)
     kw, ptok, p = prec_value(D, case["prec"])
     fmax, fmin, via = case["fmax"], case["fmin"], case["via"]
@@ -520,11 +584,13 @@ def op_stats(ctx, D, case):
             gone = [t for t in tree.taxon_namespace if tree.taxon_namespace.accession_index(t) in set(case["prune"])]
             tree.prune_taxa(gone)
             ids = tu.Ids().assign_preorder(tree)
+        if case.get("history"):
+            ids = apply_history(D, tree, ids, case["history"])
         return tree, ids
 
     def run(name, fn, trees=("tree", "tree2")):
         for key in trees:
-            if key not in case or case[key] is None:
+            if key not in case or case[key] is None or (key == "tree2" and case.get("history")):
                 continue
             tree, ids = build(key)
             try:
@@ -534,10 +600,17 @@ def op_stats(ctx, D, case):
             except Exception as e:  # noqa
                 results[(name, key)] = (exc_name(e, D, stat=True), None)
 
-    tree0, ids0 = build("tree")
+    try:
+        tree0, ids0 = build("tree")
+    except KeyError:
+        raise
+    except Exception:   # noqa   an edit of the history that the library refuses on this tree: no case
+        if case.get("history"):
+            return []
+        raise
     info = Info(tree0, ids0)
-    if case.get("prune"):
-        toks = tu.encode_tree(tree0, ids0)[0]      # the model sees the pruned tree
+    if case.get("prune") or case.get("history"):
+        toks = tu.encode_tree(tree0, ids0)[0]      # the model sees the tree as it is after pruning / after its history
     n = len(info.leaves)
     nonroot = [i for i in range(info.n) if info.par[i] is not None]
     internal = [i for i in range(info.n) if info.kids[i]]
@@ -567,7 +640,11 @@ def op_stats(ctx, D, case):
     specs.append(("colless_default", lambda t: tm.colless_tree_imbalance(t), "stat colless max " + T, cw["max"], None))
     specs.append(("colless_true", lambda t: tm.colless_tree_imbalance(t, normalize=True), "stat colless max " + T, cw["max"], None))
     specs.append(("colless_pda", lambda t: tm.colless_tree_imbalance(t, normalize="pda"), "stat colless pdasq " + T, cw["pda"], "sqrt"))
-    specs.append(("colless_yule", lambda t: tm.colless_tree_imbalance(t, normalize="yule"), "stat collessparts - " + T, cw["yule"], "yule"))
+    # Yule: log is evaluated here (ln n and Euler - 1 - ln 2 handed to the model as exact fractions of the floats), the
+    # rational part of the formula is the model's (theorem colless_yule_rational)
+    yarg = "%s,%s" % (fr(math.log(n)) if n > 0 else "0", fr(0.5772156649015329 - 1.0 - math.log(2)))
+    specs.append(("colless_yule", lambda t: tm.colless_tree_imbalance(t, normalize="yule"), "stat collessyule %s %s" % (yarg, T), cw["yule"], None))
+    specs.append(("colless_yule_parts", lambda t: tm.colless_tree_imbalance(t, normalize="yule"), "stat collessparts - " + T, cw["yule"], "yule"))
     # B1
     b1 = sum((F(1, info.height[i]) for i in internal if info.par[i] is not None), F(0))
     specs.append(("b1", lambda t: tm.B1(t), "stat b1 - " + T, b1, None))
@@ -910,6 +987,50 @@ def multi_perturbed(rng, toks):
     return out, eps
 
 
+def gen_history(rng, toks):
+    """a history of one Tree object: earlier age computations / age attributes from elsewhere / dated tips, then (mostly)
+    an edit that turns internal nodes into tips or moves the tips, possibly another computation"""
+    n = int(toks[0])
+    par = [int(x) for x in toks[1:1 + n]]
+    internal = [i for i in range(n) if i in par and par[i] >= 0]
+    nonroot = [i for i in range(n) if par[i] >= 0]
+    leaves = leaf_indices(toks)
+
+    def computation():
+        r = rng.random()
+        if r < 0.3:
+            return ["ages", rng.choice(["D", "N", "0", "100"]), rng.choice(["calc", "node_ages", "internal_node_ages"])]
+        if r < 0.4:
+            return ["force", rng.choice(["max", "min"])]
+        if r < 0.5:
+            return ["gamma"]
+        if r < 0.6:
+            return ["resolve"]
+        if r < 0.65:
+            return ["intervals"]
+        if r < 0.82:
+            return ["stale", [tu.frac(F(rng.randint(0, 12), 2)) for _ in range(n)]]
+        # tips dated through set_node_age_fn (non-contemporary tips), internal nodes computed
+        return ["datefn", [tu.frac(F(rng.randint(0, 6), 2)) if i in leaves and rng.random() < 0.7 else None for i in range(n)]]
+
+    steps = [computation()]
+    if rng.random() < 0.3:
+        steps.append(computation())
+    for _ in range(rng.choice([0, 1, 1, 1, 2])):
+        r = rng.random()
+        if r < 0.4 and internal:
+            steps.append(["clear", rng.choice(internal)])
+        elif r < 0.6 and nonroot:
+            steps.append(["remove", rng.choice(nonroot)])
+        elif r < 0.85:
+            steps.append(["truncate", tu.frac(F(rng.randint(1, 24), 4))])
+        else:
+            steps.append(["scale", rng.choice(["2", "1/2", "4"])])
+    if rng.random() < 0.25:
+        steps.append(computation())
+    return steps
+
+
 def tree_battery(ctx, D, rng, toks, kind, pending):
     """all operations on one tree"""
     n = int(toks[0])
@@ -923,6 +1044,13 @@ def tree_battery(ctx, D, rng, toks, kind, pending):
     for fx, fn in ((True, False), (False, True)) + (((True, True),) if rng.random() < 0.1 else ()):
         case = age_case(rng, toks, rng.choice(["D", "N", "0"]), fmax=fx, fmin=fn)
         ctx.case(["ages-force", toks, fx, fn], True, sample=case, kind="ages-forced")
+        do_case(ctx, D, case, pending)
+    # the same calls on a Tree object with a history (earlier age computations, stale / dated ages, edits)
+    for _ in range(2):
+        hist = gen_history(rng, toks)
+        case = age_case(rng, toks, rng.choice(["D", "D", "0", "N", "1/2"]))
+        case["history"] = hist
+        ctx.case(["ages-history", toks, hist, case["prec"], case["via"]], True, sample=case, kind="ages-history")
         do_case(ctx, D, case, pending)
     # lengths from ages
     case = {"op": "setlen", "tree": toks, "ages": None, "prec": rng.choice(["D", "0", "N", "1/2"]),
@@ -950,6 +1078,11 @@ def tree_battery(ctx, D, rng, toks, kind, pending):
     case = {"op": "stats", "tree": toks, "tree2": shuffle_tokens(rng, toks), "gprec": rng.choice(["D", "D", "0", "1/2", "N"])}
     ctx.case(["stats", toks, case["tree2"]], True, sample={"op": "stats", "tree": toks}, kind="stats-" + kind)
     do_case(ctx, D, case, pending)
+    if rng.random() < 0.5:
+        hist = gen_history(rng, toks)
+        case = {"op": "stats", "tree": toks, "gprec": rng.choice(["D", "0", "N"]), "history": hist}
+        ctx.case(["stats-history", toks, hist], True, sample=case, kind="stats-history")
+        do_case(ctx, D, case, pending)
     # the same statistics on the tree after prune_taxa (the pruned members stay in the namespace)
     pr = prune_choice(rng, toks) if rng.random() < 0.5 else None
     if pr:
@@ -963,9 +1096,9 @@ def run(ctx):
     rng = ctx.rng
     import time
     ctx.t0 = time.time()      # the exploration budget starts here (waiting for the shared build lock must not eat it)
-    ctx.set_budget(33, 640)
+    ctx.set_budget(30, 640)
     pending = []
-    ntrees = ctx.pick(900, 20000)
+    ntrees = ctx.pick(800, 20000)
     max_leaves = ctx.pick(14, 40)
 
     def maybe_flush(limit=3000):
